@@ -14,20 +14,42 @@ warnings.simplefilter("ignore")
 logging.disable(logging.CRITICAL)
 
 from refber import *            # noqa
-from refagent import Agent, User, Mib, BudgetExceeded, GET, GETNEXT, GETBULK, SET, RESPONSE, REPORT, TRAP2  # noqa
+from refagent import Agent, User, Mib, BudgetExceeded, Dropped, GET, GETNEXT, GETBULK, SET, RESPONSE, REPORT, TRAP2  # noqa
 
 PFX = (1, 3, 6, 1, 4, 1, 99999)
+# alternative placements of the abstract universe in the OID tree: objects that the library itself knows by name are ordinary
+# MIB objects too ("usm": abstract [1, k, 0] = usmStats counter k, 1.3.6.1.6.3.15.1.1.k.0; abstract root [1] = usmStats)
+PREFIXES = {"": PFX, "usm": (1, 3, 6, 1, 6, 3, 15, 1), "sys": (1, 3, 6, 1, 2, 1), "snmpv2": (1, 3, 6, 1, 6, 3)}
+_CUR = [PFX]
+
+
+def cur_pfx():
+    return _CUR[0]
+
+
+class use_prefix:
+    """with use_prefix(name): conc()/absoid() place the abstract universe under PREFIXES[name]"""
+
+    def __init__(self, name):
+        self.p = PREFIXES[name or ""]
+
+    def __enter__(self):
+        self.old, _CUR[0] = _CUR[0], self.p
+
+    def __exit__(self, *a):
+        _CUR[0] = self.old
 
 
 def conc(o):
     """abstract OID (list of small ints) -> concrete arcs"""
-    return PFX + tuple(o)
+    return _CUR[0] + tuple(o)
 
 
 def absoid(arcs):
     arcs = tuple(arcs)
-    if arcs[:len(PFX)] == PFX:
-        return list(arcs[len(PFX):])
+    p = _CUR[0]
+    if arcs[:len(p)] == p:
+        return list(arcs[len(p):])
     return ["X"] + list(arcs)          # outside the modelled universe: can never equal an abstract OID
 
 
@@ -185,3 +207,37 @@ def patched_clock(now, request_id=None, monotonic=False):
     finally:
         for obj, name, val in reversed(saved):
             setattr(obj, name, val)
+
+
+# ------------------------------------------------------------------ logging configuration (DEBUG is a configuration applications do use)
+class _FormatHandler(logging.Handler):
+    def emit(self, record):
+        try:
+            record.getMessage()          # format the record as a real handler would (lazy arguments are evaluated)
+        except Exception:  # noqa
+            pass
+
+
+@contextlib.contextmanager
+def debug_logging(on=True):
+    """run the enclosed code with the library's loggers at DEBUG (records are formatted and dropped)"""
+    if not on:
+        yield
+        return
+    prev = logging.root.manager.disable
+    logging.disable(logging.NOTSET)
+    h = _FormatHandler()
+    loggers = [logging.getLogger(n) for n in ("puresnmp", "puresnmp_plugins", "x690")]
+    saved = [(l, l.level, l.propagate) for l in loggers]
+    for l in loggers:
+        l.setLevel(logging.DEBUG)
+        l.addHandler(h)
+        l.propagate = False
+    try:
+        yield
+    finally:
+        for l, lv, pr in saved:
+            l.removeHandler(h)
+            l.setLevel(lv)
+            l.propagate = pr
+        logging.disable(prev)
